@@ -431,3 +431,86 @@ func capturedAllocs(bindings []ssa.Value) map[*ssa.Alloc]bool {
 	}
 	return out
 }
+
+// closureWritten: the local variable cells of `root` (a top-level function)
+// that some closure declared in it stores to. A closure call can write no
+// other captured cell.
+func closureWritten(root *ssa.Function) map[*ssa.Alloc]bool {
+	out := map[*ssa.Alloc]bool{}
+	var allocOf func(v ssa.Value, d int) *ssa.Alloc
+	allocOf = func(v ssa.Value, d int) *ssa.Alloc {
+		if d > 8 {
+			return nil
+		}
+		switch x := v.(type) {
+		case *ssa.Alloc:
+			return x
+		case *ssa.FieldAddr:
+			return allocOf(x.X, d+1)
+		case *ssa.IndexAddr:
+			return allocOf(x.X, d+1)
+		case *ssa.FreeVar:
+			g := x.Parent()
+			p := g.Parent()
+			if p == nil {
+				return nil
+			}
+			idx := -1
+			for i, fv := range g.FreeVars {
+				if fv == x {
+					idx = i
+				}
+			}
+			for _, b := range p.Blocks {
+				for _, in := range b.Instrs {
+					if mc, ok := in.(*ssa.MakeClosure); ok && mc.Fn == g && idx >= 0 && idx < len(mc.Bindings) {
+						return allocOf(mc.Bindings[idx], d+1)
+					}
+				}
+			}
+		}
+		return nil
+	}
+	var visit func(f *ssa.Function)
+	visit = func(f *ssa.Function) {
+		for _, g := range f.AnonFuncs {
+			for _, b := range g.Blocks {
+				for _, in := range b.Instrs {
+					if st, ok := in.(*ssa.Store); ok {
+						if a := allocOf(st.Addr, 0); a != nil && a.Parent() != g {
+							out[a] = true
+						}
+					}
+				}
+			}
+			visit(g)
+		}
+	}
+	visit(root)
+	return out
+}
+
+func (e *FuncEnc) closureWrittenSet() map[*ssa.Alloc]bool {
+	if m, ok := e.Cache["closureWritten"].(map[*ssa.Alloc]bool); ok {
+		return m
+	}
+	root := e.Fn
+	for root.Parent() != nil {
+		root = root.Parent()
+	}
+	m := closureWritten(root)
+	e.Cache["closureWritten"] = m
+	return m
+}
+
+// capturedWritten: the captured cells a call of the closure may write.
+func (e *FuncEnc) capturedWritten(bindings []ssa.Value) map[*ssa.Alloc]bool {
+	w := e.closureWrittenSet()
+	out := map[*ssa.Alloc]bool{}
+	for a := range capturedAllocs(bindings) {
+		if w[a] {
+			out[a] = true
+		}
+	}
+	return out
+}
